@@ -263,7 +263,10 @@ pub fn build<Data: GarnishData>(parse_root: usize, parse_tree: Vec<ParseNode>, d
 
         for end_instruction in end_instructions {
             match last_instruction.clone().and_then(|i| data.get_instruction(i)) {
-                Some(instruction) if instruction == end_instruction => {}
+                // only an end of expression written out by the program itself (`;;`) stands in for the block's own;
+                // any other instruction that happens to equal a terminator (a trailing `??` before the Tis of a logical
+                // operand) is part of the body, and branches that rejoin after the body must still reach the terminator
+                Some(instruction) if instruction == end_instruction && end_instruction.0 == Instruction::EndExpression => {}
                 _ => {
                     data.push_instruction(end_instruction.0, end_instruction.1)?;
                     instruction_metadata.push(InstructionMetadata::new(None));
